@@ -7,7 +7,7 @@
   listings, all log-file configurations and both run modes.  `Dir` is the explicit file-system
   state: names *and* contents, so `dir = d` is "byte for byte".
 -/
-import ASV.Proofs.OutputDir
+import ASV.Proofs.Names
 namespace ASV.C20
 open ASV ASV.WriteSafety
 
@@ -407,6 +407,62 @@ theorem pipeline_meets_spec (p : PipeIn) (wf : p.prep.WF = true) : specPipeline 
       rw [dropWhile_prefix _ _ _ hq]
       simp
 
+/-! ## results that come back from `--reuse-results` -/
+
+/-- **the realistic source of wrong-type entries.**  A run reuses a results file written from `r` and
+    regenerates nothing (skipped records, modules no longer run).  If any module of any record had been
+    written as anything but `null` — `{}` and `[]` included — the results now hold its raw JSON, the
+    write fails, and the reused file (like everything else in the directory) stays as it is. -/
+theorem reloaded_results_fail_safe (r : Results) (i : Nat) (hi : i < r.records.length) (hi' : i < r.results.length)
+    (k : String) (t : Bool) (v : PyVal) (hk : (k, ModSpec.mod t v) ∈ r.results[i]) (hv : jsonShape v ≠ .none)
+    (h : Handle) (d : Dir) :
+    (∃ e, (writeToFile (reload r) h d).err = some e) ∧ (writeToFile (reload r) h d).dir = d ∧
+      (writeToFile (reload r) h d).trace.any Ev.touchesFiles = false := by
+  obtain ⟨h1, h2, _, h4⟩ :=
+    failed_conversion_preserves_file (reload r) h d (reload_hasFault r i hi hi' k t v hk hv)
+  exact ⟨h1, h2, h4⟩
+
+/-! ## the names the run derives -/
+
+/-- the results file the run writes is never one of the stale region files it deletes — no
+    assumption on input names or options: its name is `<base>.json` by construction -/
+theorem results_file_is_never_cleaned_up (r : RunIn) : isRegionGbk r.jsonName = false := by
+  obtain ⟨pre, h⟩ := jsonName_shape r
+  exact json_not_region _ pre h
+
+/-- an empty `--output-dir` becomes an absolute, hence non-empty, path and is stored in the options:
+    the guard `if not name` discharges the "directory name is not empty" invariant by itself -/
+theorem empty_output_dir_is_derived (c : CallIn) (h : c.nameArg = "") (hcwd : PosixPath.isabs c.cwd.toList = true) :
+    (effective c).1.name.toList ≠ [] ∧ PosixPath.isabs (effective c).1.name.toList = true ∧
+      (effective c).2.outputDir = (effective c).1.name :=
+  effective_empty_name c h hcwd
+
+/-- … and a given one is used as it is -/
+theorem given_output_dir_is_used (c : CallIn) (h : c.nameArg ≠ "") :
+    (effective c).1.name = c.nameArg ∧ (effective c).2.outputDir = c.opts.outputDir :=
+  effective_given_name c h
+
+/-- an explicit `--output-basename` names the results file whatever the input is called -/
+theorem output_basename_option_wins (r : RunIn) (h : r.call.opts.outputBasename ≠ "")
+    (hp : PosixPath.Plain r.call.opts.outputBasename.toList) :
+    r.jsonName = r.call.opts.outputBasename ++ ".json" := by
+  have h1 := option_basename_kept r.call.inputFile "" r.call.opts h
+  have ho : (effective r.call).2.outputBasename = r.call.opts.outputBasename := by
+    unfold effective
+    rw [h1]
+    split <;> rfl
+  have h2 := option_basename_kept r.resultsInputFile (effective r.call).2.outputDir (effective r.call).2
+    (by rw [ho]; exact h)
+  unfold RunIn.jsonName
+  simp only []
+  rw [h2]
+  simp only [String.toList_ofList, ho, basename_join_plain _ _ hp, String.ofList_toList]
+
+/-- the whole tail of the run, names derived by the code's own rules, meets the spec -/
+theorem run_tail_meets_spec (r : RunIn) (wf : (effective r.call).1.WF = true) :
+    specPipeline r.toPipe (runTail r) = true :=
+  pipeline_meets_spec r.toPipe wf
+
 /-! ## non-vacuity: concrete runs on which the interesting branches fire -/
 
 /-- two records, two modules each; the existing target holds old bytes, a bystander file exists -/
@@ -445,6 +501,19 @@ example : (writeToFile ⟨[⟨none⟩], [[("a", .mod false (.dict []))]], .dict 
     [⟨"keep.txt", false, [.raw "bystander"]⟩,
      ⟨"res.json", false, [.lbrace, .key "records", .lbrack, .lbrace, .key "a", .lbrace, .rbrace, .rbrace,
         .rbrack, .key "timings", .lbrace, .rbrace, .rbrace]⟩] := by decide
+/-- reloading: a module written as `{}` comes back as a falsy wrong-type value, `null` as `None` -/
+example : jsonShape (.conv (.dict [])) = .invalid (.dict 0) ∧ jsonShape (.dunder .none) = .none := ⟨rfl, rfl⟩
+example : (reload ⟨[⟨none⟩], [[("a", .mod true (.dict []))]], .dict []⟩).hasFault = true := by decide
+example : (reload ⟨[⟨none⟩], [[("a", .mod true .none), ("b", .none)]], .dict []⟩).hasFault = false := by decide
+/-- derived names: compressed input loses two extensions, the reused file names itself, an empty
+    output directory is derived from the input, the option wins -/
+def exCall (input name : String) (base : String := "") : CallIn :=
+  ⟨.absent, input, "/home/u", name, ⟨base, name, ""⟩⟩
+example : (RunIn.jsonName ⟨exCall "/data/genome.fa.GZ" "out", default, "genome.fa.GZ"⟩) = "genome.json" := by decide
+example : (RunIn.jsonName ⟨exCall "/old/run1/base.json" "/old/run1", default, "seq.gbk"⟩) = "base.json" := by decide
+example : (effective (exCall "/data/genome.gbk" "")).1.name = "/home/u/genome" := by decide
+example : (RunIn.jsonName ⟨exCall "/data/genome.gbk" "out" "mine", default, "x.gbk"⟩) = "mine.json" := by decide
+example : (RunIn.jsonName ⟨exCall "/data/.hidden" "out", default, "x"⟩) = ".hidden.json" := by decide
 /-- orjson's integer range is a fault boundary -/
 example : (PyVal.int 18446744073709551615).faulty = false ∧ (PyVal.int 18446744073709551616).faulty = true := by
   decide
